@@ -210,3 +210,45 @@ Theorem go_Tx_ZRemRangeByRank_closed : forall now g b s e, Tx_db_isnil g = true 
 Proof.
   intros now g b s e H. rewrite go_Tx_ZRemRangeByRank_fun, H. eexists. split; [reflexivity|discriminate].
 Qed.
+
+(* ---------------------------------------------------------------------- *)
+(** * ZMembers, ZCard: reads of the bucket's dictionary; the object is unchanged *)
+
+Theorem go_Tx_ZMembers_fun : forall g b,
+  go_Tx_ZMembers g b =
+    if Tx_db_isnil g then GOk (g, ([], EVar "ErrTxClosed"%string))
+    else match alookup (DB_SortedSetIdx (Tx_db g)) b with
+         | None => GOk (g, ([], EVar "ErrBucket"%string))
+         | Some ss => GOk (g, (GoZSet.SortedSet_Dict ss, ENil))
+         end.
+Proof.
+  intros g b. unfold go_Tx_ZMembers.
+  destruct (Tx_db_isnil g) eqn:Hnil.
+  - rewrite (go_Tx_checkTxIsClosed_closed g Hnil). reflexivity.
+  - rewrite (go_Tx_checkTxIsClosed_open g Hnil). cbn [gbind err_is_nil negb gnonnil].
+    unfold has_key, lookup0.
+    destruct (alookup (DB_SortedSetIdx (Tx_db g)) b); reflexivity.
+Qed.
+
+Theorem go_Tx_ZCard_fun : forall g b,
+  go_Tx_ZCard g b =
+    if Tx_db_isnil g then GOk (g, (0, EVar "ErrTxClosed"%string))
+    else match alookup (DB_SortedSetIdx (Tx_db g)) b with
+         | None => GOk (g, (0, EVar "ErrBucket"%string))
+         | Some ss => GOk (g, (zlen (GoZSet.SortedSet_Dict ss), ENil))
+         end.
+Proof.
+  intros g b. unfold go_Tx_ZCard. rewrite go_Tx_ZMembers_fun.
+  destruct (Tx_db_isnil g); [reflexivity|].
+  destruct (alookup (DB_SortedSetIdx (Tx_db g)) b); reflexivity.
+Qed.
+
+(** ZCard is the length of what ZMembers returns, with the same error, and neither changes the transaction *)
+Theorem go_Tx_ZCard_ZMembers : forall g b,
+  exists m e, go_Tx_ZMembers g b = GOk (g, (m, e)) /\
+              go_Tx_ZCard g b = GOk (g, ((if err_is_nil e then zlen m else 0), e)).
+Proof.
+  intros g b. rewrite go_Tx_ZCard_fun, go_Tx_ZMembers_fun.
+  destruct (Tx_db_isnil g); [eexists; eexists; split; reflexivity|].
+  destruct (alookup (DB_SortedSetIdx (Tx_db g)) b); eexists; eexists; split; reflexivity.
+Qed.
